@@ -53,14 +53,7 @@ func decCompare(c *h.Ctx, kind string, x []byte) string {
 		if !ok {
 			return "either-rejected"
 		}
-		if rm != nil && rm.SType == 0 {
-			return "either-accepted" // data message nested beyond the documented limit
-		}
-		want := append([]byte{0, 0, 0, 10}, x[4:14]...)
-		if m == nil || m.Type() != ref.STypeName(x[8], x[9]) || !bytes.Equal(m.ToBytes(), want) {
-			c.Fail("control-with-body-misdecoded", decIn(kind, x), fmt.Sprintf("accepted as %v", m))
-		}
-		return "either-accepted"
+		return "either-accepted" // data message nested beyond the documented limit
 	}
 	if !ok || m == nil {
 		c.Fail("refused-wellformed:"+kind, decIn(kind, x), "reference accepts, decoder refused")
@@ -438,6 +431,12 @@ func init() {
 					case pan != "":
 						c.Fail("panic-escaped:nesting", desc, pan)
 					case nesting > ref.NestingLimit:
+						// the statement names no nesting bound: a refusal here is a (listed) finding, not a don't-care
+						if !ok {
+							c.Fail("refused-wellformed:nested-deeper-than-the-documented-limit", desc, fmt.Sprintf("well-formed message with %d nested lists refused (limit %d)", nesting, ref.NestingLimit))
+						} else if !bytes.Equal(m.ToBytes(), x) {
+							c.Fail("reencode-differs:nesting", desc, "accepted beyond the limit but re-encodes differently")
+						}
 						c.Case(0, true, fmt.Sprintf("beyond-limit-accepted=%v", ok))
 						return
 					case !ok || m == nil:
